@@ -124,10 +124,10 @@ def _valid(d):
 _TABLE = {}
 
 
-def calc_cell(ctx, op, M, S, D=15):
+def calc_cell(ctx, op, M, S, D=15, Y=2021):
     """evaluated result of DateItem::calculate for one cell, or None when the term is not evaluable / not unique"""
     from ..evalint import feasible_values
-    key = (id(ctx.facts), op, M, S, D)
+    key = (id(ctx.facts), op, M, S, D, Y)
     if key in _TABLE:
         return _TABLE[key]
     b = ctx.facts.one(CALC)
@@ -139,7 +139,7 @@ def calc_cell(ctx, op, M, S, D=15):
     if not adt:
         raise AnchorLost('enum compiler::OperationType not found')
     discr = {v['name']: v['discr'] for v in adt['variants']}
-    leaf = _leaf_factory(2021, M, D, S, discr[op], 5)
+    leaf = _leaf_factory(Y, M, D, S, discr[op], 5)
     vals = [v for v, _ in feasible_values(b, b.ret_expr(), leaf)]
     pan = [v for v in vals if isinstance(v, dict) and 'panic' in v]
     if pan:
@@ -170,17 +170,23 @@ def d1_steps(ctx):
             n_ok = 0
             cells = 0
             deep = ctx.tier == 'thorough' and ctx.cfg_name == 'dev'
-            for M, n, D in [(M_, n_, D_) for D_ in ((1, 15, 28, 29, 30, 31) if deep else (15, 31)) for M_ in range(1, 13) for n_ in range(1, 25 if (deep and step == 'year') else 13)]:
+            cells_ = [(2021, M_, n_, D_) for D_ in ((1, 15, 28, 29, 30, 31) if deep else (15, 31)) for M_ in range(1, 13) for n_ in range(1, 25 if (deep and step == 'year') else 13)]
+            # leap days: steps that start or arrive on 29 February, also of a year divisible by 400
+            if step == 'year':
+                cells_ += [(1996, 2, 4, 29), (1996, 2, 8, 29), (2004, 2, 4, 29), (2008, 2, 8, 29), (1600, 2, 400, 29)] if op == 'Add' else [(2004, 2, 4, 29), (2008, 2, 8, 29), (2012, 2, 12, 29)]
+            else:
+                cells_ += [(2000, 1, 1, 29), (1999, 12, 2, 29), (2004, 1, 1, 29)] if op == 'Add' else [(2000, 3, 1, 29), (2000, 4, 2, 29), (2004, 3, 1, 29)]
+            for Y, M, n, D in cells_:
                 if True:
                     if step == 'year':
                         want = (Y + sign * n, M, D)
                     else:
                         tot = M - 1 + sign * n
                         want = (Y + tot // 12, tot % 12 + 1, D)
-                    if D != 15 and not (_valid({'y': Y, 'm': M, 'd': D}) and _valid({'y': want[0], 'm': want[1], 'd': want[2]})):
+                    if (D != 15 or Y != 2021) and not (_valid({'y': Y, 'm': M, 'd': D}) and _valid({'y': want[0], 'm': want[1], 'd': want[2]})):
                         continue          # the day does not exist in the start or the target month: the statement says nothing (C01-g)
                     S = n * (YEAR_SECS if step == 'year' else MONTH_SECS) + 3 * DAY_SECS
-                    r = calc_cell(ctx, op, M, S, D)
+                    r = calc_cell(ctx, op, M, S, D, Y)
                     cells += 1
                     if r is None:
                         classes.setdefault('not-extractable' if D == 15 else 'not-extractable-day-%d' % D, []).append((M, n, None))
